@@ -238,6 +238,7 @@ class OdeModel:
         self.flow = Flow(func, FILE, proc_resolver=_resolver, resolver=_pure_resolver)
         fl = self.flow
         self._expand_built_lists(fl)
+        self._index_slice_loops(fl)
         params = [a.arg for a in self.func.args.args if a.arg != "self"]
         if not params:
             raise AnalysisError("_prepare_ode_content lost its parameters", (FILE, self.func.lineno))
@@ -299,6 +300,41 @@ class OdeModel:
                 lst[:] = [(ex(v), loops, tuple((ex(c), p_) for c, p_ in guards), line, seq) for v, loops, guards, line, seq in lst]
             if not changed:
                 return
+
+    @staticmethod
+    def _index_slice_loops(fl):
+        """A loop that walks a SLICE of a table and stores back into that table (`for i, e in enumerate(T[lo:hi]): T[lo + i] = g(e)`)
+        is the index loop `for i in range(hi - lo): T[lo + i] = g(T[lo + i])`: position and element are rewritten to that form in every
+        fact of the loop, so that the store rules see the slot they know.  Loops that only read the table are left as they are."""
+        stored = {f.target for f in fl.facts if f.kind in ("store", "augstore") and isinstance(f.target, str)}
+        for lp in list(fl.all_loops.values()):
+            it = simp(lp.iter)
+            if it[0] == "call" and it[1] == ("global", "enumerate") and len(it[2]) == 1 and not it[3]:
+                it = it[2][0]
+            if not (it[0] == "sub" and it[1][0] == "acc" and it[1][1] in stored and it[2][0] == "slice" and it[2][3] == ("const", None)):
+                continue
+            if not any(f.target == it[1][1] and f.kind in ("store", "augstore") and lp in f.loops for f in fl.facts):
+                continue
+            lo = it[2][1] if it[2][1] != ("const", None) else ("const", 0)
+            hi = it[2][2]
+            if hi == ("const", None):
+                continue
+            d = poly(("binop", "Sub", hi, lo))
+            if len(d) == 1 and list(d.values()) == [1] and len(next(iter(d))) == 1:
+                n = next(iter(d))[0]
+            elif not d or (len(d) == 1 and () in d):
+                n = ("const", d.get((), 0))
+            else:
+                n = ("binop", "Sub", hi, lo)
+            pos = ("elem", ("call", ("global", "range"), (n,), ()), lp.id)
+            slot = ("sub", it[1], pos if lo == ("const", 0) else ("binop", "Add", lo, pos))
+            m = {("idx", it, lp.id): pos, ("elem", it, lp.id): slot}
+            ex = lambda v: simp(subst(simp(v), m)) if v is not None else None
+            for f in fl.facts:
+                if lp in f.loops:
+                    f.index, f.value = ex(f.index), ex(f.value)
+                    f.guards = tuple((ex(c), p_) for c, p_ in f.guards)
+            lp.iter = ("call", ("global", "range"), (n,), ())
 
     def _array_names(self):
         """The locals playing the roles of rhs[] and jacrhs[] (robust to renaming)."""
@@ -388,6 +424,23 @@ class OdeModel:
                 for r, n in ((a[2], a[3]), (a[3], a[2])):
                     if self.is_n_eqns(n):
                         return r, b
+        # a longer sum (`rowstart + col + 1`, `col + n * row`): the one term carrying the factor n_eqns is the row part, the rest the column
+        terms = []
+
+        def flat(x):
+            if x[0] == "binop" and x[1] == "Add":
+                flat(x[2]); flat(x[3])
+            else:
+                terms.append(x)
+        flat(idx)
+        rows = [(i, r) for i, t in enumerate(terms) if t[0] == "binop" and t[1] == "Mult" for r, n in ((t[2], t[3]), (t[3], t[2])) if self.is_n_eqns(n)]
+        if len(rows) == 1 and len(terms) >= 2:
+            i, r = rows[0]
+            rest = [t for j, t in enumerate(terms) if j != i]
+            col = rest[0]
+            for t in rest[1:]:
+                col = ("binop", "Add", col, t)
+            return r, col
         return None
 
     def _known_arith(self, v) -> bool:
@@ -397,6 +450,8 @@ class OdeModel:
             return True
         if v[0] == "const":
             return isinstance(v[1], int) and not isinstance(v[1], bool)
+        if v[0] == "elem" and v[1][0] == "call" and v[1][1] == ("global", "range") and not v[1][3] and all(self._known_arith(a) for a in v[1][2]):
+            return True         # the counter of a loop over a range of understood bounds
         if v[0] == "binop" and v[1] in ("Add", "Sub", "Mult", "FloorDiv", "Mod"):
             return self._known_arith(v[2]) and self._known_arith(v[3])
         if v[0] == "unop" and v[1] in ("USub", "UAdd"):
@@ -450,7 +505,9 @@ class OdeModel:
         else:
             d = self.decode_flat(idx)
             if d is None:
-                s.problems.append(("viol", "flat-index", f"index is not row*n_eqns + col: {show(idx)}"))
+                # wrong only when it is arithmetic over understood positions that does not have the row-major form (`col*n + row` is
+                # decoded and caught by the row / column rules); a slice, a tuple key, an index computed elsewhere is not understood
+                s.problems.append(("viol" if self._known_arith(idx) else "unrec", "flat-index", f"index is not row*n_eqns + col: {show(idx)[:200]}"))
                 return s
             row, col = d
         # --- row
